@@ -432,6 +432,18 @@ def gen_config(rng, joint=None, small=True):
     }
 
 
+def find_repopulating_config(rng, tries=40, joint=False):
+    """a configuration whose run really repopulates a cluster (a repopulation phase that returns a new state): found
+    by running candidates traced, so that a check that needs the repopulation path does not depend on the draw."""
+    for _ in range(tries):
+        cfg = gen_config(rng, joint=joint)
+        cfg.update({"K": 4, "regimes": 2, "m": 2, "limit": max(3, cfg["limit"]), "beta": 1})
+        res, tr, err, _series = execute(cfg, record_states=False, capture_kernel=False)
+        if err is None and tr is not None and any(e["phase"] == "repop" and e["out"] is not e["in"] for e in tr.events):
+            return cfg
+    return None
+
+
 def config_data(cfg):
     r = pyrandom.Random(cfg["data_seed"])
     series = [make_series(r, L, cfg["N"], regimes=cfg.get("regimes", 3), scale=cfg.get("scale", 1.0),
